@@ -67,6 +67,8 @@ def templates():
             out.append(({"outer": {"k.$": p, "lit": lit}, "arr": [lit, {"in.$": p}]},
                         ("fail", v) if isinstance(v, str) and v.endswith("FAIL") else {"outer": {"k": v, "lit": lit}, "arr": [lit, {"in": v}]}))
     out.append(({}, {})); out.append((None, "INPUT")); out.append(({"a": {"b": {"c.$": "$.o.k"}}}, {"a": {"b": {"c": 1}}}))
+    out.append(([[{"id.$": "$.a"}], [1, [{"deep.$": "$.o.k"}]]], [[{"id": 1}], [1, [{"deep": 1}]]]))
+    out.append(({"rows": [[{"id.$": "$.a"}, "lit"], []]}, {"rows": [[{"id": 1}, "lit"], []]}))
     out.append(({"k.$": 5}, ("unspecified", None)))
     return out
 
@@ -269,6 +271,20 @@ def run(tier, seed):
         ok = got[0] == w[0] and (json.dumps(got[1], sort_keys=True) == json.dumps(w[1], sort_keys=True))
         if inp != INPUT or c2 != CTX or t2 != tmpl:
             ok = False
+        if ok and got[0] == "value" and isinstance(got[1], (dict, list)) and t2 is not None:
+            # mutate the result everywhere: the template must not change (no shared sub-structure)
+            def scribble(x):
+                if isinstance(x, dict):
+                    for v in list(x.values()):
+                        scribble(v)
+                    x["__scribble__"] = 1
+                elif isinstance(x, list):
+                    for v in x:
+                        scribble(v)
+                    x.append("__scribble__")
+            scribble(got[1])
+            if t2 != tmpl:
+                ok = False
         if not ok:
             sig = "template|%s" % ("raises-" + got[1] if got[0] == "raise" else "wrong")
             cr.add(sig, "template %s -> %r, expected %r" % (json.dumps(tmpl), got, w), {"kind": "template", "property": PROP, "signature": sig, "template": tmpl}, size=len(json.dumps(tmpl)))
